@@ -25,7 +25,7 @@ CONSTANTS
   KnownDev = {known}
   MaxOrders = {maxorders}
   ForceDev = {{}}
-INVARIANTS ReadWriteSDL ReadWriteJSON JsonGrammar JsonFormOfStrs GuideFindsOrder LayoutShape Emit
+INVARIANTS ReadWriteSDL ReadWriteJSON JsonGrammar JsonFormOfStrs GuideFindsOrder GuideFindsOrderK LayoutShape Emit
 CHECK_DEADLOCK FALSE
 """
 
@@ -38,7 +38,7 @@ CHECK_DEADLOCK FALSE
 """
 
 QUICK_FAMS = ["leaf", "pair", "triple", "str2", "str3", "key", "sort", "tree1", "tree2", "tree3"]
-THOROUGH_FAMS = QUICK_FAMS + ["str3wide", "key2", "tree2wide"]
+THOROUGH_FAMS = QUICK_FAMS + ["str3wide", "key2", "sortwide", "tree2wide"]
 
 ASPECT_TEXT = {
     "back": "the read-back value is not the value",
@@ -200,15 +200,15 @@ def run(ctx):
     rep = replay(ctx, vecs, uni, devs)
     absorb(ctx, rep, "replay", devs)
     ctx.extra["vectors"] = len(vecs)
-    rep, out = record(ctx, uni, 20000 if thorough else 2500, 5 if thorough else 4)
+    rep, out = record(ctx, uni, 20000 if thorough else 6000, 5 if thorough else 4)
     absorb(ctx, rep, "record", devs)
     verdicts, recs = judge(ctx, out, devs)
     judge_verdicts(ctx, verdicts, recs, devs, "record")
     if thorough:
         self_checks(ctx, vecs, uni, devs)
     if ctx.extra.get("text_drift"):
-        print("NOTE property=C18 the written text differs from the writer model in %d cases that still read back correctly "
-              "(layout only; no promise of the property is broken)" % ctx.extra["text_drift"])
+        print("NOTE property=%s the written text differs from the writer model in %d cases that still read back correctly "
+              "(layout only; no promise of the property is broken)" % (ctx.prop, ctx.extra["text_drift"]))
     ctx.exhaustive = True
     ctx.rule = ("TLC enumerates the value families %s of spec/MCValueText.tla (every leaf of the design alone and wrapped, every pair and "
                 "triple of adjacent members, strings over the escape classes, map keys of every class, sort orders, all trees of depth <= 2 "
